@@ -6,7 +6,7 @@ import sys
 
 from .facts import Facts
 from .run import Run, VERIF
-from .inline import load_vocabulary, inline_new_helpers
+from .inline import load_vocabulary, inline_new_helpers, load_reference
 from .normalize import lower_int_cmp
 
 LEVELS = {"C13": "proof"}
@@ -44,10 +44,11 @@ def main():
     ctx = Ctx()
     ctx.tier = tier
     ctx.work = work
-    ctx.facts = Facts(os.path.join(work, "facts.json"))
+    reference = load_reference(VERIF)
+    ctx.facts = Facts(os.path.join(work, "facts.json"), reference)
     ctx.bad = Facts(os.path.join(work, "bad.json"))
     rel = os.path.join(work, "facts_release.json")
-    ctx.facts_release = Facts(rel) if os.path.exists(rel) else None
+    ctx.facts_release = Facts(rel, reference) if os.path.exists(rel) else None
     # helper functions the reference release does not have are spliced into their callers (identity on an unchanged tree)
     for fx in (ctx.facts, ctx.facts_release):
         if fx is not None:
@@ -66,6 +67,8 @@ def main():
     run.units = {"mir_bodies": ctx.facts.n_bodies(), "call_sites": ctx.facts.n_calls(),
                  "named_constants": len(ctx.facts.consts), "statics": len(ctx.facts.statics),
                  "adts": len(ctx.facts.adts), "crate": ctx.facts.crate, "build": ctx.facts.opts}
+    if ctx.facts.aliases:
+        run.note("private items recognised as renamed (same module, signature / value as a reference item that is gone): %s" % sorted(ctx.facts.aliases.items()))
     if ctx.inlined:
         run.note("functions outside the reference vocabulary spliced into their callers before analysis: %s" % sorted({c for _p, c in ctx.inlined}))
     run.floor("UNITS", "MIR bodies analysed", ctx.facts.n_bodies(), FLOOR_BODIES)
